@@ -134,11 +134,11 @@ CLAIMED = {
              'clash ignoring letter case, declared operand sets and registers, operand counts vs both kinds of operand list, '
              'non-inverted ranges, zones inside the address space and GLOBAL, version gate); the gate is exactly the interval '
              '[minimum supported, running] of a version order proved reflexive, antisymmetric, transitive and numeric per '
-             'component; #require holds iff the name matches and the stated comparison holds. The definition is abstracted to '
-             'the facts validation reads; tied by compiling with generated well-formed definitions, every fault of a 22-entry '
+             'component; #require holds iff the name matches and the stated comparison holds. The facts validation reads are '
+             'extracted from the loaded YAML tree by the model itself; tied by compiling with generated well-formed definitions, every fault of a 22-entry '
              'catalogue, and version triples whose numeric and textual orders differ (in process and through the command line).',
         ref='DESIGN.md §6 C19', technique='Coq proofs (validate <-> well_formed, version order) + accept/reject correspondence on generated definitions',
-        note='YAML text -> abstract definition is harness code (trusted); version text is parsed by the model.'),
+        note='The harness renders the loaded YAML as a tree term; abstraction and version parsing are model code.'),
     'C20': dict(
         text='Partial. Theorem: the alternation pattern the generator substitutes, searched in an identifier, matches iff the '
              'identifier is in the vocabulary (any vocabulary of word-character names, any identifier). Well-formedness of the '
